@@ -167,6 +167,27 @@ func ruleErrEdge(pkgs []string) func(c *Ctx, r *Rep, tier string) {
 					w.Inline = 0
 					w.MaxVisits = 2
 					w.AssumeNonNil = []ssa.Value{e}
+					// deferred report: the error is stored in an error-typed struct field
+					// which some function of the package returns as its error result
+					// (bam.Merger.err: nextBySortOrder returns the record it already holds
+					// and Read returns the kept error on the next call)
+					w.Effect = func(ins ssa.Instruction) (string, bool) {
+						st, ok := ins.(*ssa.Store)
+						if !ok {
+							return "", false
+						}
+						fa, ok := st.Addr.(*ssa.FieldAddr)
+						if !ok || !isErrorTyped(st.Val) {
+							return "", false
+						}
+						if strip(st.Val) != strip(e) && symKey(st.Val) != symKey(e) {
+							return "", false
+						}
+						if f := fieldVarOfAddr(fa); f != nil && fieldReturnedAsError(c, pkg, f) {
+							return "latched", true
+						}
+						return "", false
+					}
 					w.Edge = func(from *ssa.BasicBlock, succ int) (string, bool) {
 						fi := ifOf(from)
 						if fi == nil {
@@ -203,7 +224,7 @@ func ruleErrEdge(pkgs []string) func(c *Ctx, r *Rep, tier string) {
 						if _, isRet := pe.At.(*ssa.Return); !isRet || ei >= len(pe.Ret) {
 							continue
 						}
-						if pe.Counts["classified"] > 0 {
+						if pe.Counts["classified"] > 0 || pe.Counts["latched"] > 0 {
 							continue
 						}
 						if !reportsError(pe.Ret[ei], e, 0) {
@@ -215,6 +236,26 @@ func ruleErrEdge(pkgs []string) func(c *Ctx, r *Rep, tier string) {
 			}
 		}
 	}
+}
+
+// fieldReturnedAsError: some function of pkg returns a load of field f as its
+// error result.
+func fieldReturnedAsError(c *Ctx, pkg string, f *types.Var) bool {
+	found := false
+	for _, fn := range c.FuncsIn(pkg) {
+		ei := errResultIndex(fn.Signature)
+		if ei < 0 || found {
+			continue
+		}
+		allInstrs(fn, func(ins ssa.Instruction) {
+			if ret, ok := ins.(*ssa.Return); ok && ei < len(ret.Results) {
+				if lf, _ := loadedField(retValue(ret, ei)); lf == f {
+					found = true
+				}
+			}
+		})
+	}
+	return found
 }
 
 // walkFrom: Walker.Walk from the beginning of a block.
